@@ -487,6 +487,17 @@ struct optional<T&> {
     {
     }
 
+    template <typename U>
+        requires(
+            not is_same_v<remove_cvref_t<U>, optional>
+            and is_constructible_v<add_lvalue_reference_t<T>, add_lvalue_reference_t<U>>
+            and not is_constructible_v<add_lvalue_reference_t<T>, add_lvalue_reference_t<add_const_t<U>>>
+        )
+    constexpr explicit(not is_convertible_v<add_lvalue_reference_t<U>, add_lvalue_reference_t<T>>) optional(optional<U>& rhs)
+        : _ptr(rhs.has_value() ? etl::addressof(*rhs) : nullptr)
+    {
+    }
+
     constexpr optional(optional const& other)     = default;
     constexpr optional(optional&& other) noexcept = default;
     constexpr ~optional()                         = default;
@@ -514,9 +525,9 @@ struct optional<T&> {
     }
 
     template <typename U>
+        requires(is_constructible_v<add_lvalue_reference_t<T>, add_lvalue_reference_t<add_const_t<U>>>)
     constexpr auto operator=(optional<U> const& rhs) -> optional&
     {
-        static_assert(is_constructible_v<add_lvalue_reference_t<T>, U>, "Must be able to bind U to T&");
         _ptr = rhs.has_value() ? etl::addressof(*rhs) : nullptr;
         return *this;
     }
